@@ -136,6 +136,7 @@ type dqIter struct {
 	yielded   int
 	addRem    uint8 // elements added/removed since the last Next (dqmPush|dqmPop|dqmPopEmpty)
 	since     uint8 // every kind of modification since creation (signature naming)
+	sinceFst  uint8 // every kind of modification since the first Next (signature naming)
 	touched   bool  // any mutator call at all since creation
 }
 
@@ -467,6 +468,9 @@ func (w *dqW) do(op, arg int) {
 		for _, it := range w.iters {
 			it.touched = true
 			it.since |= mod
+			if it.started {
+				it.sinceFst |= mod
+			}
 			if mod&(dqmPush|dqmPop|dqmPopEmpty) != 0 {
 				it.addRem |= mod
 			}
@@ -628,6 +632,12 @@ func (w *dqW) iterNext(k int) {
 		return
 	}
 	cur := w.m.view()
+	// what the iterator may have been disturbed by: modifications before its first Next are part
+	// of the snapshot taken there, so blame what came after it, if it had started
+	cause := dqCause(it.since)
+	if it.started {
+		cause = dqCause(it.sinceFst)
+	}
 	if it.exhausted {
 		if ok {
 			r.Violate("C15", "deque-iter/item-after-exhaustion", "iterator it%d yielded v%d after it had reported exhaustion", it.id, dqID(item))
@@ -654,7 +664,7 @@ func (w *dqW) iterNext(k int) {
 		a0 := it.v0 && j < len(it.s0) && (item == it.s0[j] || visible)
 		a1 := it.v1 && j < len(it.s1) && (item == it.s1[j] || visible)
 		if !a0 && !a1 {
-			r.Violate("C15", "deque-iter/wrong-item-after-"+dqCause(it.since), "iterator it%d yielded v%d as its item %d; the contents were %s when it was created and %s at its first Next, position %d now holds %s (modifications since creation: %s)", it.id, dqID(item), j, dqDescribe(it.s0), dqDescribe(it.s1), j, dqAt(cur, j), dqCause(it.since))
+			r.Violate("C15", "deque-iter/wrong-item-after-"+cause, "iterator it%d yielded v%d as its item %d; the contents were %s when it was created and %s at its first Next, position %d now holds %s (blamed modification: %s)", it.id, dqID(item), j, dqDescribe(it.s0), dqDescribe(it.s1), j, dqAt(cur, j), cause)
 			return
 		}
 		it.v0, it.v1 = a0, a1
@@ -662,7 +672,7 @@ func (w *dqW) iterNext(k int) {
 		return
 	}
 	if !((it.v0 && j == len(it.s0)) || (it.v1 && j == len(it.s1))) {
-		r.Violate("C15", "deque-iter/early-exhaustion-after-"+dqCause(it.since), "iterator it%d reported exhaustion after %d items; the deque held %d items when it was created and %d at its first Next", it.id, j, len(it.s0), len(it.s1))
+		r.Violate("C15", "deque-iter/early-exhaustion-after-"+cause, "iterator it%d reported exhaustion after %d items; the deque held %d items when it was created and %d at its first Next", it.id, j, len(it.s0), len(it.s1))
 		return
 	}
 	it.exhausted = true
